@@ -89,6 +89,7 @@ package tex
 //
 // ---- round trip: decoding the encoder's output gives back the value (harness functions in zz_harness_verif.go) ----
 //@ func verifRoundTripJsInt64
+//@   opt int2bv-inverse
 //@   requires ErrInvalidInt64Js != nil
 //@   ensures #roundtrip result1 == nil && result0 == v
 //@   modifies region($alloc)
@@ -97,10 +98,12 @@ package tex
 //@   ensures #roundtrip result1 == nil && result0 == v
 //@   modifies region($alloc)
 //@ func verifRoundTripUnixStamp
+//@   opt int2bv-inverse
 //@   requires ErrInvalidInt64Js != nil
 //@   ensures #roundtrip result1 == nil && result0 == v
 //@   modifies region($alloc)
 //@ func verifRoundTripJsUnixTime
+//@   opt int2bv-inverse
 //@   requires ErrInvalidInt64Js != nil
 //@   ensures #roundtrip result1 == nil && spec_unix(time.Time(result0)) == spec_unix(time.Time(v))
 //@   modifies region($alloc), JsUnixTime.wall, JsUnixTime.ext, JsUnixTime.loc
